@@ -345,9 +345,15 @@ func universal(sc *Scn, x *vrt.Sched, w *World) []Finding {
 	}
 
 	// ---- C06: Request.ID is the arrival number
+	sent := map[int64]int{} // how many requests of the scenario carry a message ID
+	for ci, cs := range sp.Conns {
+		for k, op := range cs.Ops {
+			sent[opMsgID(op, ci, k+1)]++
+		}
+	}
 	for _, d := range w.Dispatch {
 		k := reqOfMsg(d.MsgID)
-		if k != 99 && k != 90 && d.Req != k {
+		if k != 99 && k != 90 && d.Req != k && sent[d.MsgID] < 2 {
 			add("C06", "Request.ID is not the request's arrival number on its connection", fmt.Sprintf("message %d (request #%d of its connection) saw Request.ID %d", d.MsgID, k, d.Req))
 		}
 	}
@@ -357,7 +363,7 @@ func universal(sc *Scn, x *vrt.Sched, w *World) []Finding {
 		cnt[d.MsgID]++
 	}
 	for id, n := range cnt {
-		if n > 1 {
+		if n > 1 && n > sent[id] {
 			add("C06", "a request is dispatched more than once", fmt.Sprintf("message %d dispatched %d times", id, n))
 			add("C03", "a request is handled more than once (through the connection loop)", fmt.Sprintf("message %d dispatched %d times", id, n))
 		}
@@ -377,11 +383,14 @@ func universal(sc *Scn, x *vrt.Sched, w *World) []Finding {
 			continue // Stop may have come before the request was read
 		}
 		for k, op := range cs.Ops {
-			if isUnbind(op) || op == "garbage" || op == "compare" || op == "starttls-silent" || op == "starttls-badhello" {
+			if isUnbind(op) || op == "garbage" || op == "compare" || op == "starttls-silent" || op == "starttls-badhello" || op == "starttls-badhello-alert" {
 				break
 			}
 			if h := cs.H[k+1]; h != nil && h.Panic != "" {
 				continue
+			}
+			if cnt[opMsgID(op, ci, k+1)] < sent[opMsgID(op, ci, k+1)] && sent[opMsgID(op, ci, k+1)] > 1 {
+				add("C03", "a request is silently dropped (never dispatched to any handler)", fmt.Sprintf("%d requests of client %s carry message ID %d, %d dispatched", sent[opMsgID(op, ci, k+1)], cl.Name, opMsgID(op, ci, k+1), cnt[opMsgID(op, ci, k+1)]))
 			}
 			if cnt[opMsgID(op, ci, k+1)] == 0 {
 				add("C03", "a request is silently dropped (never dispatched to any handler)", fmt.Sprintf("message %d (%s) of client %s; dispatched: %v", opMsgID(op, ci, k+1), op, cl.Name, w.Dispatch))
@@ -404,6 +413,11 @@ func universal(sc *Scn, x *vrt.Sched, w *World) []Finding {
 		for _, d := range w.Dispatch {
 			if clientOfMsg(d.MsgID) == ci && reqOfMsg(d.MsgID) > u && d.Route != "unbind" {
 				add("C10", "a request that follows an Unbind on the same connection is dispatched", fmt.Sprintf("message %d (%s) dispatched; Unbind was request #%d", d.MsgID, d.Route, u))
+			}
+		}
+		for _, d := range w.Dispatch {
+			if clientOfMsg(d.MsgID) == ci && reqOfMsg(d.MsgID) == u && !isZeroID(cs.Ops[u-1]) && d.Route != "unbind" && d.Route != "unbind-replaced" {
+				add("C10", "an Unbind request is passed to a handler that is not the unbind route's", fmt.Sprintf("message %d dispatched to the %s handler", d.MsgID, d.Route))
 			}
 		}
 		ran := 0
@@ -483,7 +497,14 @@ func universal(sc *Scn, x *vrt.Sched, w *World) []Finding {
 				}
 			}
 		}
-		if len(left) > 0 && (c.EOF || c.ReadErr != nil) {
+		// a Write that failed (a write timeout in the middle of the frame) may leave the beginning of its frame behind
+		failedPrefix := false
+		for _, wr := range w.Writes {
+			if clientOfMsg(wr.MsgID) == ci && !wr.OK && len(left) > 0 && len(left) < len(wr.Frame) && bytes.Equal(left, wr.Frame[:len(left)]) {
+				failedPrefix = true
+			}
+		}
+		if len(left) > 0 && (c.EOF || c.ReadErr != nil) && !failedPrefix {
 			add("C05", "the stream ends in the middle of a frame", fmt.Sprintf("client %s: %d leftover bytes", c.Name, len(left)))
 		}
 		// per-handler order
